@@ -397,6 +397,20 @@ theorem inv_stepKernel {h0 : Nat} {s : St} (h : Inv h0 s) : Inv h0 (stepKernel s
       thr := fun k tk hk => (h.thr k tk hk).kernel hlt }
   · exact h
 
+/-- The count of `cancel` calls is a ghost for the invariant. -/
+theorem inv_nc {h0 : Nat} {s : St} (h : Inv h0 s) (k : Nat) : Inv h0 { s with nc := k } :=
+  ⟨h.wf, h.slen, h.h0H, h.HT, h.TH, h.acc, h.win, h.cons, h.lock, h.thr⟩
+
+theorem startPc_not_holds (c : Bool) : ¬ Holds (startPc c) := by
+  cases c <;> simp [startPc, Holds]
+
+theorem startPc_ne_ok (c : Bool) : startPc c ≠ .ok := by cases c <;> simp [startPc]
+theorem startPc_ne_full (c : Bool) : startPc c ≠ .full := by cases c <;> simp [startPc]
+
+theorem pcOk_startPc (h0 len H T : Nat) (slots : List (Option Nat)) (c : Bool) (e : Nat) :
+    PcOk h0 len H T slots { pc := startPc c, entry := e } := by
+  cases c <;> simp [PcOk, startPc]
+
 theorem inv_restart {h0 : Nat} {s : St} (h : Inv h0 s) (i e : Nat) :
     Inv h0 (restart s i e).1 := by
   unfold restart
@@ -406,8 +420,11 @@ theorem inv_restart {h0 : Nat} {s : St} (h : Inv h0 s) (i e : Nat) :
     simp only
     split
     · rename_i hpc
-      refine inv_setThr h hti _ ?_ (by simp [PcOk])
-      rcases hpc with hpc | hpc <;> simp [Holds, hpc]
+      refine inv_setThr (inv_nc h (if isCancel s.nc e = true then s.nc + 1 else s.nc)) hti _ ?_
+        (pcOk_startPc _ _ _ _ _ _ _)
+      have hn := startPc_not_holds (isCancel s.nc e)
+      have ht : ¬ Holds t.pc := by rcases hpc with hpc | hpc <;> simp [Holds, hpc]
+      exact ⟨fun a => absurd a hn, fun a => absurd a ht⟩
     · exact h
 
 theorem inv_init (len h0 n : Nat) (hw : WfLen len) : Inv h0 (init len h0 n) where
@@ -428,12 +445,16 @@ theorem inv_init (len h0 n : Nat) (hw : WfLen len) : Inv h0 (init len h0 n) wher
       simp only [List.getElem?_map] at h1
       cases hr : (List.range n)[i]? with
       | none => rw [hr] at h1; cases h1
-      | some v => rw [hr] at h1; cases h1; simp [Holds] at h2
+      | some v =>
+        rw [hr] at h1; cases h1
+        exact absurd h2 (startPc_not_holds _)
   thr := by
     intro i t h1
     simp only [init, List.getElem?_map] at h1
     cases hr : (List.range n)[i]? with
     | none => rw [hr] at h1; cases h1
-    | some v => rw [hr] at h1; cases h1; simp [PcOk]
+    | some v =>
+      rw [hr] at h1; cases h1
+      exact pcOk_startPc _ _ _ _ _ _ _
 
 end A10.SqRing
